@@ -468,7 +468,10 @@ def r6_4_helper_table(ctx: Ctx) -> None:
                 collect(ld.expand(n.ast.value))
         route_var = next((nm for nm, ds in ld.defs.items() if any(isinstance(v, ast.Call) and call_name(v) == "find_best_route" for v, _, _ in ds)), None)
         if route_var is None:
-            raise AnalysisError(f"R6.4: {h.short} does not look the destination up in the route table")
+            ctx.fail("R6.4", ctx.key(h, f"true exactly when the frame leaves by the {zone} port"), h.loc(),
+                     f"{h.short} never looks the destination up in the route table: a destination routed through the {zone} port is "
+                     f"classified by the ports' own subnets only")
+            continue
 
         def role(t: str) -> Optional[str]:
             mm = re.fullmatch(rf"{re.escape(d)} in self\.(\w+)_port\.ip_network", t)
